@@ -182,6 +182,13 @@ type AEval struct {
 	SkippedBadConst bool
 	// Faults counts the faults met (evaluation stops at the first one).
 	Faults int
+	// FaultInsideAsgRHS is set when the first fault arose while the right-hand
+	// side of an assignment was being computed (and is not simply that
+	// right-hand side being a non-numeric variable): go.sh's known
+	// "assignment after a fault" finding concerns exactly these.
+	FaultInsideAsgRHS bool
+	asgDepth          int
+	directRHS         *ANode
 	// RTL evaluates the operands of unsequenced operators right to left. C
 	// leaves the order open; a tree whose outcome depends on it is not
 	// "defined by C" and is left out of the comparison.
@@ -242,6 +249,15 @@ func ParseNumber(s string, sign bool) (int64, bool) {
 	return int64(v), true
 }
 
+// fault counts a fault and notes whether it arose inside the right-hand side
+// of an assignment.
+func (e *AEval) fault(n *ANode) {
+	e.Faults++
+	if e.Faults == 1 && e.asgDepth > 0 {
+		e.FaultInsideAsgRHS = true
+	}
+}
+
 func (e *AEval) load(name string) (int64, *AFault) {
 	v, ok := e.Store[name]
 	if !ok || v == "" {
@@ -249,7 +265,7 @@ func (e *AEval) load(name string) (int64, *AFault) {
 	}
 	n, ok := ParseNumber(v, true)
 	if !ok {
-		e.Faults++
+		e.fault(nil)
 		return 0, &AFault{Msg: "non-numeric value of " + name}
 	}
 	return n, nil
@@ -261,7 +277,7 @@ func (e *AEval) binop(op string, l, r int64) (int64, *AFault) {
 		return l * r, nil
 	case "/", "%":
 		if r == 0 {
-			e.Faults++
+			e.Faults++ // a run-time panic ends the evaluation at once: nothing is assigned afterwards
 			return 0, &AFault{Msg: "division by zero", Panic: true}
 		}
 		if l == -1<<63 && r == -1 {
@@ -363,11 +379,19 @@ func (e *AEval) Eval(n *ANode) (int64, *AFault) {
 	case "num":
 		v, ok := ParseNumber(n.S, false)
 		if !ok {
-			e.Faults++
+			e.fault(n)
 			return 0, &AFault{Msg: "malformed constant " + n.S}
 		}
 		return v, nil
 	case "var":
+		if n == e.directRHS {
+			// a non-numeric variable that is the whole right-hand side: go.sh
+			// does not assign then
+			e.asgDepth--
+			v, f := e.load(n.S)
+			e.asgDepth++
+			return v, f
+		}
 		return e.load(n.S)
 	case "un":
 		v, f := e.Eval(n.A)
@@ -389,7 +413,7 @@ func (e *AEval) Eval(n *ANode) (int64, *AFault) {
 		}
 	case "preinc", "predec", "postinc", "postdec":
 		if !isLValue(n.S) {
-			e.Faults++
+			e.fault(n)
 			return 0, &AFault{Msg: "not an lvalue"}
 		}
 		v, f := e.load(n.S)
@@ -459,7 +483,14 @@ func (e *AEval) Eval(n *ANode) (int64, *AFault) {
 		return e.Eval(n.C)
 	case "asg":
 		if !isLValue(n.S) {
-			e.Faults++
+			if e.RTL {
+				// whether the right-hand side of an assignment to a non-lvalue is
+				// evaluated before the fault is noticed is not defined
+				if _, f := e.Eval(n.A); f != nil {
+					return 0, f
+				}
+			}
+			e.fault(n)
 			return 0, &AFault{Msg: "not an lvalue"}
 		}
 		if e.RTL && n.Op != "=" {
@@ -467,7 +498,12 @@ func (e *AEval) Eval(n *ANode) (int64, *AFault) {
 				return 0, f
 			}
 		}
+		saved := e.directRHS
+		e.directRHS = n.A
+		e.asgDepth++
 		r, f := e.Eval(n.A)
+		e.asgDepth--
+		e.directRHS = saved
 		if f != nil {
 			return 0, f
 		}
@@ -634,4 +670,51 @@ func (n *ANode) hasSideEffect() bool {
 		return true
 	}
 	return n.A.hasSideEffect() || n.B.hasSideEffect() || n.C.hasSideEffect()
+}
+
+// UnsequencedFault reports whether a definite fault (a read of a variable in
+// faulty, a malformed constant, a non-lvalue target) and a side effect are
+// operands of the same unsequenced operator: C does not say which is
+// evaluated first, so "no assignment after the first fault" is not decidable.
+func (n *ANode) UnsequencedFault(faulty map[string]bool) bool {
+	found := false
+	var rec func(n *ANode) (fault, side bool)
+	rec = func(n *ANode) (bool, bool) {
+		if n == nil {
+			return false, false
+		}
+		switch n.Kind {
+		case "num":
+			_, ok := ParseNumber(n.S, false)
+			return !ok, false
+		case "var":
+			return faulty[n.S], false
+		case "preinc", "predec", "postinc", "postdec":
+			return faulty[n.S] || !isLValue(n.S), true
+		case "un":
+			return rec(n.A)
+		case "bin":
+			fa, sa := rec(n.A)
+			fb, sb := rec(n.B)
+			if n.Op != "&&" && n.Op != "||" && (fa && sb || fb && sa) {
+				found = true
+			}
+			return fa || fb, sa || sb
+		case "cond":
+			fa, sa := rec(n.A)
+			fb, sb := rec(n.B)
+			fc, sc := rec(n.C)
+			return fa || fb || fc, sa || sb || sc
+		case "asg":
+			fa, sa := rec(n.A)
+			self := !isLValue(n.S) || n.Op != "=" && faulty[n.S]
+			if self && sa {
+				found = true
+			}
+			return fa || self, true
+		}
+		return false, false
+	}
+	rec(n)
+	return found
 }
